@@ -158,5 +158,26 @@ def run_case(case):
                                             and numpy.array_equal(ref.transform(P), m2.transform(P)))
                                     if not same:
                                         bad("L2 differs from sklearn KMeans", "init=%s" % iname, desc)
+    # history: one instance fitted on X, queried, then fitted on a shifted and stretched copy; both norms
+    if distinct >= 2:
+        X1 = numpy.array(pts, dtype=numpy.float64)
+        X2 = X1[::-1] * 3.0 + 5.0
+        for norm in ("L1", "L2"):
+            for k in (1, min(2, distinct)):
+                try:
+                    inst = KMeansL1L2(n_clusters=k, init="random", random_state=0, n_init=1, norm=norm)
+                    inst.fit(X1)
+                    inst.transform(probes_base)
+                    inst.predict(probes_base)
+                    inst.fit(X2)
+                    fresh = KMeansL1L2(n_clusters=k, init="random", random_state=0, n_init=1, norm=norm).fit(X2)
+                    cnt += 1
+                    P2 = probes_base * 3.0 + 5.0
+                    same = (numpy.array_equal(inst.labels_, fresh.labels_) and numpy.array_equal(inst.cluster_centers_, fresh.cluster_centers_)
+                            and numpy.array_equal(inst.transform(P2), fresh.transform(P2)) and numpy.array_equal(inst.predict(P2), fresh.predict(P2)))
+                    if not same:
+                        bad("%s refit differs from a fresh estimator (fit, transform, fit, transform)" % norm, "history", "X=%r k=%d" % (pts, k))
+                except Exception as e:
+                    bad("%s refit raises %s" % (norm, type(e).__name__), "history", "%s X=%r k=%d" % (str(e)[:150], pts, k))
     return {"viol": viol, "nontrivial": distinct >= 2 and (distinct < n or n >= 3), "states": cnt,
             "transitions": cnt * 3, "outcome": tuple(sorted(outcomes))}
